@@ -449,6 +449,41 @@ def eventlet_sendfile_records(ctx):
     ctx.log("eventlet sendfile replacement vs access record: %d failures" % nbad)
 
 
+def exc_info_records(ctx):
+    """"carrying the status the client received": an application that has flushed its headers (an empty first piece) and then
+    reports a failure with start_response(status, headers, exc_info).  Whatever the server makes of that call, the record's status
+    is the status on the wire.  Oracle only (Model/Handle.v has no exc_info)."""
+    nbad = 0
+    scripts = [
+        ("headers flushed by an empty piece, then the error call", [("start", 200, None), ("return",), ("write", b""), ("start_exc", 500), ("write", b"late")]),
+        ("headers flushed by write(b''), then the error call", [("start", 200, None), ("write", b""), ("start_exc", 500), ("return",), ("write", b"late")]),
+        ("a body piece sent, then the error call", [("start", 200, None), ("return",), ("write", b"x"), ("start_exc", 500), ("write", b"late")]),
+        ("the error call before anything was sent", [("start", 200, None), ("start_exc", 500), ("return",), ("write", b"late")]),
+        ("Content-Length, headers flushed, then the error call", [("start", 200, 4), ("return",), ("write", b""), ("start_exc", 503), ("write", b"late")]),
+    ]
+    for kind in KINDS:
+        LW = LogWorld(kind, "%(s)s %(B)s")
+        try:
+            for name, acts in scripts:
+                for req in (b"GET /e HTTP/1.1\r\nHost: h\r\n\r\n", b"GET /e HTTP/1.0\r\n\r\n"):
+                    esc, sock = LW.serve(req, app={"acts": list(acts), "file": None})
+                    ctx.count_case(("exc-info", kind, name, req[:20]), True)
+                    ctx.hist("exc_info_records", name)
+                    wire = sock.wire
+                    wstatus = wire.split(b"\r\n", 1)[0].split(b" ")[1:2] if wire.startswith(b"HTTP/") else []
+                    for (args, lines, _b) in LW.calls:
+                        if len(lines) == 1 and wstatus and lines[0].split(" ")[0] != wstatus[0].decode("latin-1"):
+                            nbad += 1
+                            if nbad <= 2:
+                                ctx.violation("record-status [%s worker]: %s: the record says status %s, the client received %s (%r ...)"
+                                              % (kind, name, lines[0].split(" ")[0], wstatus[0].decode("latin-1"), wire[:60]),
+                                              {"kind": "exc-info", "worker": kind, "name": name})
+        finally:
+            LW.close()
+            L.remove_patches()
+    ctx.log("start_response(exc_info) after the headers: %d records whose status is not the one on the wire" % nbad)
+
+
 def b64(b):
     return base64.b64encode(b).decode("ascii")
 
@@ -547,6 +582,7 @@ def run(ctx):
     # ---------------- record side
     lcases, lfail, nlines = record_side(ctx, quick)
     eventlet_sendfile_records(ctx)
+    exc_info_records(ctx)
     import lib_battery
     lib_battery.report(ctx, "records", "battery")
     ctx.log("record side: %d records, oracle failures: %d" % (nlines, lfail))
@@ -676,7 +712,7 @@ def replay(rep):
     if rep.get("kind") == "battery":
         import lib_battery
         return lib_battery.replay(rep)
-    if rep.get("kind") == "eventlet-sent":
+    if rep.get("kind") in ("eventlet-sent", "exc-info"):
         class C:
             extra = {}
             def __init__(self): self.v = []
@@ -685,7 +721,7 @@ def replay(rep):
             def log(self, *a): print(*a)
             def violation(self, what, rep): self.v.append(what)
         c = C()
-        eventlet_sendfile_records(c)
+        (eventlet_sendfile_records if rep["kind"] == "eventlet-sent" else exc_info_records)(c)
         print("failures:", c.v)
         return 1 if c.v else 0
     if rep.get("kind") == "record":
